@@ -309,6 +309,10 @@ class Lexer:
             if c == ".":
                 if self.peek() == ".":  # probably a range expression delimiter
                     self.backup()
+                    if len(self.path_stack) > 1:
+                        self.error("unbalanced brackets")
+                    if self.path_stack[-1].stop == -1:
+                        self.path_stack[-1].stop = self.pos
                     return
 
                 self.ignore()
@@ -323,6 +327,7 @@ class Lexer:
                         self.path_stack[-1].path.append(int(match.group()))
                         self.pos += match.end() - match.start()
                         self.start = self.pos
+                        self.path_stack[-1].stop = self.pos
                     else:
                         self.error("array indexes must use bracket notation")
                 else:
@@ -398,6 +403,10 @@ class Lexer:
                     self.error("expected a string, index or property name")
             else:
                 self.backup()
+                if len(self.path_stack) > 1:
+                    self.error("unbalanced brackets")
+                if self.path_stack[-1].stop == -1:
+                    self.path_stack[-1].stop = self.pos
                 return
 
     def accept_string(self, *, quote: str) -> None:
